@@ -219,12 +219,32 @@ def formatter_style_set_rule(ctx, r):
     p = ctx.p
     n = 0
     for ci in sorted(p.classes.values(), key=lambda c: c.qualname):
-        m = ci.methods.get("create_io")
-        if m is None:
+        m0 = ci.methods.get("create_io")
+        if m0 is None:
             continue
-        # the local holding the application's style set
-        ss = {t.id for a in walk_no_nested(m.node) if isinstance(a, ast.Assign) and isinstance(a.value, ast.Attribute) and a.value.attr == "style_set" for t in a.targets if isinstance(t, ast.Name)}
-        for c in q.calls(m):
+        # create_io and the helpers of its class it calls on self (the formatters may be built in one of them)
+        ms, work = [m0], [m0]
+        while work:
+            cur = work.pop()
+            for c in q.calls(cur):
+                if isinstance(c.func, ast.Attribute) and isinstance(c.func.value, ast.Name) and c.func.value.id == "self":
+                    h = p.lookup_method(ci, c.func.attr)
+                    if h is not None and h not in ms and h.cls is not None and h.module is m0.module:
+                        ms.append(h)
+                        work.append(h)
+        # per method, the locals holding the application's style set (a parameter counts when every caller hands it one)
+        ss_of = {m_: {t.id for a in walk_no_nested(m_.node) if isinstance(a, ast.Assign) and isinstance(a.value, ast.Attribute) and a.value.attr == "style_set" for t in a.targets if isinstance(t, ast.Name)}
+                 for m_ in ms}
+        for _ in range(len(ms)):
+            for m_ in ms[1:]:
+                prm_ = [a for a in m_.params if a != "self"]
+                sites = [(o, x) for o in ms for x in q.calls(o) if isinstance(x.func, ast.Attribute) and x.func.attr == m_.name and isinstance(x.func.value, ast.Name) and x.func.value.id == "self"]
+                for i_, pn in enumerate(prm_):
+                    if sites and all(i_ < len(x.args) and ((isinstance(x.args[i_], ast.Attribute) and x.args[i_].attr == "style_set") or (isinstance(x.args[i_], ast.Name) and x.args[i_].id in ss_of[o]))
+                                     for o, x in sites):
+                        ss_of[m_].add(pn)
+        for m, c in [(m_, c_) for m_ in ms for c_ in q.calls(m_)]:
+            ss = ss_of[m]
             if isinstance(c.func, ast.Name) and c.func.id.endswith("Formatter"):
                 n += 1
                 args = list(c.args) + [k.value for k in c.keywords if k.arg in (None, "style_set")]
@@ -510,13 +530,7 @@ def run(ctx):
             continue
         def engine_calls(m_):
             # locals that stand for the engine itself (`f = self._formatter`), not for something inside it
-            defs_ = {}
-            for n_ in walk_no_nested(m_.node):
-                if isinstance(n_, ast.Assign):
-                    for t_ in n_.targets:
-                        if isinstance(t_, ast.Name):
-                            defs_.setdefault(t_.id, []).append(n_.value)
-            al = {k for k, vs in defs_.items() if all(is_self_attr(v) for v in vs)}
+            al = q.direct_aliases(m_)
             return sorted({c.func.attr for c in q.calls(m_) if isinstance(c.func, ast.Attribute) and (is_self_attr(c.func.value) or (isinstance(c.func.value, ast.Name) and c.func.value.id in al))
                            and c.func.attr not in ("colorized",)})
         a_, b_ = engine_calls(fmt_m), engine_calls(rm_m)
